@@ -4,6 +4,7 @@ package c20
 import (
 	"fmt"
 	"math"
+	"os"
 	"testing"
 	"time"
 
@@ -660,6 +661,7 @@ func runSched(c SchedCase) (pbt.Outcome, error) {
 		})
 	}
 	res := s.Run()
+	lastOptions = res.Options
 	tally.VerifSetHooks(nil)
 	log.OnCall = nil
 	for _, p := range res.Panics {
@@ -699,5 +701,63 @@ func TestCacheSched(t *testing.T) {
 		ID: "C20", Name: "cache-sched",
 		Rule: "cooperative-scheduler mode: the adversarial (cache-colliding) histogram creations of the 'cache' mode are distributed over 2..3 threads, each creating on its own subscope of one root (shared bucket cache), with a schedule (<=80 choices) over the cache's read-unlock -> write-lock window and the reporter's allocation calls; same per-histogram own-bounds oracle. Non-trivial: two different specs with equal cache identity exist and the cache window was preempted.",
 		Gen:  genSched, Run: runSched, Retries: 10,
+	})
+}
+
+// ------------------------------------------------------------ bounded-exhaustive micro-scenarios
+
+var lastOptions []int
+
+// TestExhaustive enumerates every schedule with a bounded number of preemptions
+// of two threads each creating ONE histogram on its own subscope of one root,
+// for pairs of specs that are equal, or different but colliding in the bucket
+// cache (same kind and across kinds).
+func TestExhaustive(t *testing.T) {
+	prop := pbt.Prop[SchedCase]{
+		ID: "C20", Name: "exhaustive",
+		Rule: "bounded-exhaustive mode: ALL schedules with at most 8 (quick) / 12 (thorough) preemptions (plain reporter; 5 / 7 with the cached reporter, whose allocation calls are schedule points too) of micro-scenarios {two threads each create one histogram on its own subscope of one root and record two samples; the two specs are equal, or different with equal bucket-cache identity: durations {1s,4s}|{2s,3s}, {5s}|{2s,3s}, values {1,4}|{0.5,8}, across kinds {-2,2}|{-1s,1s}}, enumerated depth-first over the cache's read-unlock -> write-lock window and the get-or-create hooks; same own-bounds oracle as the generated modes. Non-trivial: different colliding specs and the cache window was preempted.",
+		Run:  func(c SchedCase) (pbt.Outcome, error) { return runSched(c) },
+	}
+	thorough := os.Getenv("VERIF_TIER") == "thorough"
+	sec := int64(time.Second)
+	f := func(vs ...float64) []pbt.F {
+		var r []pbt.F
+		for _, v := range vs {
+			r = append(r, pbt.FOf(v))
+		}
+		return r
+	}
+	pairs := [][2]HSpec{
+		{{Dur: true, D: []int64{sec, 4 * sec}, Samp: []pbt.F{pbt.F(uint64(sec)), pbt.F(uint64(3 * sec))}}, {Dur: true, D: []int64{2 * sec, 3 * sec}, Samp: []pbt.F{pbt.F(uint64(sec)), pbt.F(uint64(3 * sec))}}},
+		{{Dur: true, D: []int64{5 * sec}, Samp: []pbt.F{pbt.F(uint64(sec)), pbt.F(uint64(6 * sec))}}, {Dur: true, D: []int64{2 * sec, 3 * sec}, Samp: []pbt.F{pbt.F(uint64(sec)), pbt.F(uint64(3 * sec))}}},
+		{{V: f(1, 4), Samp: f(1, 3)}, {V: f(0.5, 8), Samp: f(0.5, 3)}},
+		{{V: f(-2, 2), Samp: f(-2, 1)}, {Dur: true, D: []int64{-sec, sec}, Samp: []pbt.F{pbt.F(uint64(sec)), pbt.F(0)}}},
+		{{V: f(1, 4), Samp: f(1, 3)}, {V: f(1, 4), Samp: f(4, 5)}},
+	}
+	pbt.MainEnum(t, prop, func(emit func(c SchedCase) bool) bool {
+		all := true
+		for _, cached := range []bool{false, true} {
+			bound := 8
+			if thorough {
+				bound = 12
+			}
+			if cached {
+				bound = 5
+				if thorough {
+					bound = 7
+				}
+			}
+			for _, p := range pairs {
+				base := SchedCase{Cached: cached, Threads: [][]HSpec{{p[0]}, {p[1]}}}
+				_, ex := sched.Enumerate(bound, 600000, func(prefix []int) ([]int, bool) {
+					c := base
+					c.Sched = append([]int(nil), prefix...)
+					ok := emit(c)
+					return lastOptions, ok
+				})
+				all = all && ex
+			}
+		}
+		return all
 	})
 }
